@@ -206,7 +206,14 @@ Next == Len(hist) < MaxHist /\ Tx
 
 Spec == Init /\ [][Next]_vars
 
-View == <<chain, balance, senderNonce>>
+\* The balances do not remember a transaction that was not processed, but an implementation may (whatever
+\* it computed or cached while validating it).  The view therefore also distinguishes states by what the
+\* LAST submitted transaction was (kind, envelope, fee fields) when it was rejected, so that every
+\* continuation after every rejected transaction is explored -- not only after the empty history.
+LastGhost == IF hist # <<>> /\ lastRes = "rejected"
+             THEN LET o == hist[Len(hist)] IN <<o.kind, o.env, o.price, o.prio, o.value>>
+             ELSE <<>>
+View == <<chain, balance, senderNonce, LastGhost>>
 
 -----------------------------------------------------------------------------
 \* ---- the property, checked by TLC on this specification
